@@ -172,8 +172,11 @@ SimClause(e) ==
                                    ELSE ""
          [] e.op = "submit" -> IF sm.inupd THEN "" ELSE "submission_outside_a_member_update"
          [] e.op = "step" -> IF sm.ph = Len(sm.agents) /\ ~sm.inupd THEN "" ELSE "runner_steps_after_every_member_has_updated"
-         [] e.op = "sim_end" -> IF sm.ph = 0 /\ nsteps = sm.n_steps /\ e.returned_market_data /\ e.rounds = sm.n_steps THEN ""
-                                ELSE "runner_takes_exactly_n_steps_and_returns_the_market_data"
+         [] e.op = "sim_end" -> IF ~(sm.ph = 0 /\ nsteps = sm.n_steps /\ e.returned_market_data /\ e.rounds = sm.n_steps)
+                                THEN "runner_takes_exactly_n_steps_and_returns_the_market_data"
+                                ELSE IF ("repeat_identical" \in DOMAIN e) /\ ~e.repeat_identical
+                                THEN "the_same_simulation_again_gives_the_same_orders_and_trades"
+                                ELSE ""
          [] OTHER -> ""
 
 SimNext(e) ==
